@@ -50,6 +50,13 @@ def run(ctx):
                     except Exception as ex: e['raised'] = type(ex).__name__
                     ev.append(e)
             traces.append(dict(alg=H.ALGS[name], name=name, ev=ev, klens=seq)); ctx.mark((name, str(seq)))
+    for name in ('md5', 'sha1', 'sha256', 'blake256'):
+        obj = HMAC(H.make(name), b'zero-edge key')
+        for M in core.zero_edge_inputs(lambda x: obj(x), lambda i: b'zh-%d-%d' % (ctx.seed, i), want=1, tries=500):
+            o2 = HMAC(H.make(name), b'zero-edge key'); e = dict(op='mac', m=B(M), raised='', out=[])
+            try: e['out'] = B(o2(M))
+            except Exception as ex: e['raised'] = type(ex).__name__
+            traces.append(dict(alg=H.ALGS[name], name=name, ev=[dict(op='setkey', key=B(b'zero-edge key'), raised=''), e], klens=[13])); ctx.mark((name, 'zero-edge'))
     ctx.sample(dict(alg=traces[0]['name'], keylens=traces[0]['klens'], events=traces[0]['ev'][:3]))
     ctx.exhaustive_subspaces.append('key-length classes {0,1,dg-1,dg,dg+1,B-1,B,B+1,2B,3B} x 14 hashes; key replacement sequences K1,K2,K1')
     payload = [dict(alg=t['alg'], ev=t['ev']) for t in traces]
